@@ -453,3 +453,17 @@ def env_value(name):
 def expanduser(p):
     import os
     return os.path.expanduser(p)
+
+
+def Named(tname, **fields):
+    return T("Named", tname, **fields)
+
+
+# ghost vocabulary of the file-system / network model (static reading only; see pyvc/oslib.py)
+def _ghost_rt(*a):
+    raise NotImplementedError("ghost file-system vocabulary has no run-time reading")
+
+
+fs_kind = fs_content = fs0_kind = fs0_content = net_calls = net_calls0 = sha = good = good_data = data_of = unpickle = path_join = _ghost_rt
+
+file_pos = file_content = hash_acc = strlen = strcat = substr = _ghost_rt
